@@ -443,6 +443,9 @@ inductive Cmd where
   /-- `recv_data` until it answers `None` or an error -/
   | rda
   | rt
+  /-- `RequestStream::split`: the task goes on with the receive half (the send half becomes another
+      task, which this model does not follow) -/
+  | sp
 deriving Repr, DecidableEq
 
 structure Call where
@@ -460,6 +463,8 @@ inductive Ans where
   | res (r : Res)
   | noTask
   | badCmd
+  /-- a command without a result of its own (`split`) has been carried out -/
+  | ok
 deriving Repr, DecidableEq
 
 structure Sim where
@@ -475,6 +480,13 @@ structure Sim where
 
 def Sim.fuel (m : Sim) : Nat := fsFuel m.st.src
 
+/-- `RequestStream::split` / `FrameStream::split` / `BufRecvStream::split` as seen from the receive
+    half: it takes over the buffered bytes, the decoder state and `remaining_data` (all in `src`),
+    the saved trailers, and shares the connection state — nothing of what the receive calls look
+    at changes. -/
+def St.recvHalf {σ : Type} (st : St σ) : St σ :=
+  { src := st.src, trailers := st.trailers, env := st.env }
+
 /-- one attempt at a call: `none` = still pending -/
 def attempt (H : Hdr) (m : Sim) (c : Call) : Nat → Option Sim
   | 0 => some { m with log := (c.cmd, .res .invalid) :: m.log }
@@ -483,6 +495,7 @@ def attempt (H : Hdr) (m : Sim) (c : Call) : Nat → Option Sim
       { m with st := st, resolved := resolved, log := (cmd, .res r) :: m.log,
                alive := !(c.halt && r.isErr) }
     match c.cmd with
+    | .sp => some { m with st := m.st.recvHalf, log := (.sp, .ok) :: m.log }
     | .res =>
       let (r, st) := pollResolve fsSrc H m.st
       if r = .pending then none
